@@ -70,7 +70,7 @@ class Cond(object):
 
     def __init__(self, name, fn, params, fixed=None, pre=(), shard=(),
                  timeout=120, functions=(), note="", path_timeout=None,
-                 expect_fail=False):
+                 expect_fail=False, skip=None):
         self.name = name            # unique within the property
         self.fn = fn                # "harness.c20:roundtrip"
         self.params = list(params)
@@ -82,6 +82,7 @@ class Cond(object):
         self.functions = list(functions)   # real functions executed (evidence)
         self.note = note
         self.expect_fail = expect_fail     # reachability-only condition (must be violated)
+        self.skip = skip                   # predicate over the shard constants: shard is vacuous by precondition
 
     def bounds(self):
         b = [p.bound_text() for p in self.params]
@@ -96,7 +97,10 @@ class Cond(object):
         doms = [pm[n].domain() for n in self.shard]
         for combo in itertools.product(*doms):
             sid = self.name + "".join("-%s%s" % (n, int(v)) for n, v in zip(self.shard, combo))
-            yield sid, dict(zip(self.shard, combo))
+            sfix = dict(zip(self.shard, combo))
+            if self.skip is not None and self.skip(sfix):
+                continue
+            yield sid, sfix
 
     def module_source(self, shard_fixed):
         mod, func = self.fn.split(":")
